@@ -135,7 +135,7 @@ pub fn run<C: Ciphersuite, L: Lab<C>>(lab: &mut L, p: &Params) {
         let mut msg = m.msg.clone();
         match p.variant {
             V_SUBSET | V_DENSE => {
-                if p.variant == V_SUBSET && p.aux & (1 << j) != 0 {
+                if p.variant == V_SUBSET && j < 64 && p.aux & (1u64 << j) != 0 {
                     let e = lab.adv_scalar(&format!("e{j}"));
                     lab.assume_ne_s(e, zero::<C>(), "this item's response is altered");
                     sig = fc::Signature::<C>::new(*sig.R(), *sig.z() + e);
